@@ -36,6 +36,9 @@ CLAIMED = {
  'C09': dict(cat='proof', tech='Coq proof (window/hold/grant/pacing theorems on the model) + bus-level oracle against a reference peer + correspondence',
    text='no DT while waiting for a CTS, exactly the granted packets after a CTS(g) for every g, hold emits nothing; every grant of the responder is between 1 and min(own maximum, RTS limit, remaining); a BAM session is untouched before its deadline and re-armed to now+interval by each packet; real stacks on both layers against a reference peer with windows 1..255, holds, intervals, read from the bus by an oracle',
    note='upper pacing bound is relative to the jitter J (A3); FD layer by oracle (and C02 model)'),
+ 'C07': dict(cat='proof', tech='Coq proof (progress of the job pass over arbitrary session tables, release, containment) + malformed-stream exploration + correspondence',
+   text='the transport pass over ANY receive/send tables at ANY instant hands on a wake-up time strictly in the future or raises (no busy spin on protocol state), sessions are released at their deadline, the listener contains every exception; protocol-aware malformed frame sequences of length 1..60 with gaps up to 3.1 s on both real layers while the stack itself sends, followed by timer, table and follow-up-transfer checks; J1939-21 runs (incl. exception paths) replayed on the model',
+   note='"never raises in the job pass" (T07.2) is not proved; the no-spin theorem treats a raise as an exit; J1939-22 by exploration/oracle'),
 }
 props = [json.loads(l) for l in open(os.path.join(ROOT, 'properties.jsonl'))]
 old = {}
